@@ -102,7 +102,51 @@ func RunReplay(out string, seed int64) (*Summary, error) {
 			lines[i] = ln
 		}(i, p)
 	}
+	// a login that takes long: /start is asked while the proxy's signature is still (just) fresh, the user comes back from
+	// the identity provider, and by the time the browser is back at /sign_in the proxy's timestamp is older than five
+	// minutes. The code is attached only for a FRESH proxy signature - a signature the authenticator made itself on the
+	// way is not the proxy's.
+	var slow RLine
+	wg.Add(1)
+	go func() {
+		defer wg.Done()
+		ts := time.Now().Unix() - 294
+		slow = RLine{Ev: "walk", Case: 97000150, Ep: "start", Nested: "stale"}
+		inner := "http://" + a.Opts.Host + a.Path("sign_in") + "?" + signed(ts).Encode()
+		r1 := world.Do(a.Handler, world.NewReq("GET", a.Opts.Host, a.Path("start")+"?redirect_uri="+url.QueryEscape(inner), nil, nil, ""))
+		trail := []string{fmt.Sprintf("GET start -> %d %.200s", r1.Status, r1.Header.Get("Location"))}
+		u1, err := url.Parse(r1.Header.Get("Location"))
+		csrf, _ := r1.CookieAfter(a.CSRFName, "")
+		if err != nil || r1.Status/100 != 3 || u1.Host != idp.Host() || csrf == "" {
+			slow.Nested = "valid" // (reported as the honest walk that was refused: the harness rule)
+			slow.Conc = map[string]interface{}{"trail": trail, "note": "/start did not start a login"}
+			return
+		}
+		code := fmt.Sprintf("slowcode-%d", time.Now().UnixNano())
+		idp.Grant(code, "walker@allowed.test", true, []string{"g"})
+		cb := a.Path("callback") + "?" + url.Values{"code": {code}, "state": {u1.Query().Get("state")}}.Encode()
+		r2 := world.Do(a.Handler, world.NewReq("GET", a.Opts.Host, cb, nil, []*http.Cookie{{Name: a.CSRFName, Value: csrf}}, ""))
+		sess, _ := r2.CookieAfter(a.CookieName, "")
+		trail = append(trail, fmt.Sprintf("GET callback -> %d %.300s", r2.Status, r2.Header.Get("Location")))
+		u2, err := url.Parse(r2.Header.Get("Location"))
+		if err != nil || r2.Status/100 != 3 || sess == "" || !strings.EqualFold(u2.Host, a.Opts.Host) {
+			slow.Nested = "valid"
+			slow.Conc = map[string]interface{}{"trail": trail, "note": "the callback did not sign the user in"}
+			return
+		}
+		for time.Now().Unix()-ts <= 301 {
+			time.Sleep(200 * time.Millisecond)
+		}
+		r3 := world.Do(a.Handler, world.NewReq("GET", a.Opts.Host, u2.RequestURI(), nil, []*http.Cookie{{Name: a.CookieName, Value: sess}}, ""))
+		trail = append(trail, fmt.Sprintf("GET sign_in (proxy signature now %d s old) -> %d %.300s", time.Now().Unix()-ts, r3.Status, r3.Header.Get("Location")))
+		if u3, err := url.Parse(r3.Header.Get("Location")); err == nil && r3.Status/100 == 3 && strings.EqualFold(u3.Host, "app.root.test") {
+			slow.Acted = u3.Query().Get("code") != ""
+		}
+		slow.Hops = 3
+		slow.Conc = map[string]interface{}{"trail": trail}
+	}()
 	wg.Wait()
+	lines = append(lines, slow)
 	// walks: what the browser brings back in `state` is the browser's to choose; the code may be attached only to a
 	// redirect the proxy signed, freshly - also two hops after the callback
 	for i, nested := range []string{"valid", "badsig", "stale", "foreign", "nosig", "valid"} {
